@@ -143,3 +143,40 @@ CHECKS = {
         "assumptions": ["effects may write only signals created after everything they can read (generator rule that keeps write cascades finite)", "memos contain no writes"],
     },
 }
+
+# ---------------------------------------------------------------------------------------------
+# further reactive-engine properties (same engine, rule and trusted base as C01)
+RX = "SycVerif.Reactive."
+
+
+def _reactive(pid, text, note, mods, ths, classes, status, partial, args=None):
+    base = CHECKS["C01"]
+    eng = {"harness": "native", "engine": "reactive", "proto": "reactive"}
+    if args:
+        eng["args"] = args
+    CHECKS[pid] = {
+        "manifest_text": text, "manifest_note": note, "lean_modules": mods, "theorems": ths,
+        "engines": [eng], "classes": classes, "status": status, "partial": partial,
+        "rule": base["rule"], "trusted": base["trusted"], "assumptions": base["assumptions"],
+    }
+
+
+_reactive("C02",
+          "Lean theorems about the schedule Root::dfs fixes before any user code runs, for EVERY arena, start node and fuel: the buffer never lists a node twice (at most one run per node and write), in visiting order every scheduled node precedes all its live dependents (a computation runs after everything it was subscribed to), the search changes nothing but marks, and the invariant carries over to the next start node (batches). The real code is compared with the model run by run (each run with every value it read) and judged by glitch/double-run/unjustified-run oracles against a from-scratch reference.",
+          "Partial: clause (i) (no stale read) for edges that appear during the propagation is FALSE on the code (known finding D1, class late-edge, reported as KNOWN-FINDING); for edges that exist when the order is fixed it follows from C02_schedule_topological but the lift through run_node_update to whole programs is not yet a Lean theorem; clause (iii) by oracle only.",
+          ["SycVerif.Props.C02"],
+          [RX + n for n in ["C02_schedule_no_duplicates", "C02_schedule_topological", "C02_schedule_is_pure", "C02_schedule_invariant"]],
+          ["glitch", "double-run", "unjustified-run", "late-edge"],
+          "schedule theorems proved for all arenas; lift to whole programs (C02_partial) not yet proved; clause (i) false for late edges (D1)",
+          [{"theorem": "C02_partial (planned)", "missing": "reads made by running bodies see locally consistent values under NoLateEdge; a run is always justified by a change in the current propagation"}],
+          ["--profile", "0"])
+
+_reactive("C04",
+          "Lean theorems for every dangling-free, symmetric subscription graph: disposal (removeNode, repaired D2) erases the node from both directions of the graph — no live node keeps the destroyed id among its subscribers or dependencies — and preserves dangling-freedom and symmetry; a re-run first unsubscribes the computation everywhere (never fails) and then links it to exactly the live nodes it tracked, as a list. On the real code, after every operation: live node count = created handles still alive, dead exactly when it or an owner was disposed/re-ran, each cleanup exactly once, subscriber-list lengths = tracked reads by live computations (hook), compared with the model.",
+          "Partial until the ownership-subtree theorem lands (Props/C04.lean, in progress): 'exactly the subtree dies, every cleanup once' is checked by the oracle and the correspondence only.",
+          ["SycVerif.Props.C04Edges"],
+          [RX + n for n in ["C04_dispose_unsubscribes", "C04_rerun_unsubscribes", "C04_link_exact"]],
+          ["node-count", "leak", "freed-early", "cleanup-twice", "cleanup-missing", "stale-subscribers"],
+          "subscription-graph half proved for all arenas; ownership-subtree half in progress",
+          [{"theorem": "disposeNode_spec (in progress)", "missing": "exactly the ownership subtree is removed; cleanups run exactly once"}],
+          ["--profile", "2"])
